@@ -1,4 +1,5 @@
 import XzVerif.Gen.ErrFlow
+import XzVerif.Gen.SrcReads
 import XzVerif.Proofs.Writer2F
 import XzVerif.Proofs.XzWF
 import XzVerif.Proofs.HashTable
@@ -221,6 +222,42 @@ theorem C09_xzwriter_success_only_with_valid_stream {σ : Type} (strict : Bool) 
 example : ((W2F.run { props := ⟨3, 0, 2⟩, dictCap := 4096, bufSize := 4096 } W2.Script (W2F.planOf 1 0)
     (W2F.init { props := ⟨3, 0, 2⟩, dictCap := 4096, bufSize := 4096 } [W2.GoOp.lit 1])
     [.write ⟨#[1]⟩, .close]).1.hit = true) := by decide +kernel
+
+/-! ### where the writers touch the sink (pinned fact, regenerated from /repo with go/types)
+
+  The fault plans of `Model.Writer2F`, `Model.XzWF` and `Model.Writer1F` number the sink calls; the models say in which
+  functions the code hands bytes to a sink.  `Gen.sinkWrites` lists every call of `Write` / `WriteByte` / `Flush` on an
+  interface-typed writer (hashes excluded) or a `bufio.Writer`, and of the io / bufio functions that write to one.  Every
+  entry must be one of the reviewed (function, callee) pairs below — a new place where bytes reach a sink (or where its
+  error could be lost) shows up here; the NUMBER of calls each place makes is tied dynamically (sink call counts of the
+  fault ties). -/
+
+def sinkSites : List (String × String) :=
+  [("Writer2.Close", "(io.Writer).Write"),                       -- the end-of-stream byte
+   ("Writer2.writeCompressedChunk", "(io.Writer).Write"),        -- chunk header
+   ("Writer2.writeCompressedChunk", "io.Copy"),                  -- chunk body, one Write
+   ("Writer2.writeUncompressedChunk", "(io.Writer).Write"),      -- chunk header
+   ("encoderDict.CopyN", "(io.Writer).Write"),                   -- raw payload, cut at the ring's end
+   ("encoderDict.Discard", "(github.com/ulikunitz/xz/lzma.matcher).Write"),   -- the match finder, not a sink
+   ("LimitedByteWriter.WriteByte", "(io.ByteWriter).WriteByte"), -- every byte of the range encoder
+   ("Writer.writeHeader", "(io.Writer).Write"),                  -- classic header
+   ("WriterConfig.NewWriter", "bufio.NewWriter"),                -- classic writer: plain sinks behind bufio
+   ("Writer.Close", "(*bufio.Writer).Flush"),                    -- classic Close: the final flush
+   ("WriterConfig.NewWriter", "(io.Writer).Write"),              -- xz stream header
+   ("WriterConfig.newBlockWriter", "io.MultiWriter"),            -- block data to the LZMA2 writer and the hash
+   ("blockWriter.writeHeader", "(io.Writer).Write"),
+   ("blockWriter.Write", "(io.Writer).Write"),
+   ("blockWriter.Close", "(io.Writer).Write"),                   -- padding and check in one write
+   ("countingWriter.Write", "(io.Writer).Write"),
+   ("writeIndex", "(io.Writer).Write"), ("writeIndex", "io.MultiWriter"),
+   ("Writer.Close", "(io.Writer).Write"),                        -- xz footer
+   ("readBlockHeader", "io.CopyN"), ("uncompressedReader.fill", "io.CopyN")]   -- reader side: into a buffer / the dictionary
+
+theorem C09_sink_reached_only_at_reviewed_sites :
+    Gen.sinkWrites.all (fun r => sinkSites.contains (r.2.1, r.2.2)) = true := by decide +kernel
+
+example : Gen.sinkWrites.length ≥ 20 ∧ Gen.sinkWrites.any (fun r => r.2.2 == "io.Copy") = true := by decide +kernel
+
 
 /-! ### the classic .lzma writer on a failing sink (Model/Writer1F.lean, tied to the real lzma.Writer under fault injection)
 
